@@ -28,6 +28,8 @@ DRIVER = os.path.join(LEAN, '.lake', 'build', 'bin', 'bufrdrv')
 GUARD = 'PYBUFRKIT_VERIF'
 
 os.environ.setdefault(GUARD, '1')
+import logging  # noqa: E402
+logging.basicConfig(level=logging.ERROR)   # pybufrkit logs table fall-backs as warnings
 if REPO not in sys.path:
     sys.path.insert(0, REPO)
 
